@@ -1,7 +1,7 @@
 // C39 harness: Optimizer (LBFGS, LBFGSB, InteriorPoint, CMAES, BestAvailable selection) on generated problems.
 //
 //   I select req nEq nIneq hasLim                         -> O select <algorithm actually constructed | EXC>
-//   I opt <18 ints> <doubles...> <log>                    -> O opt <algorithm actually constructed> 1
+//   I opt <19 ints> <doubles...> <log>                    -> O opt <algorithm actually constructed> 1
 //        (kind K: the Lean driver re-evaluates the whole contract in exact rationals on the doubles returned and must
 //         answer `O opt <model's selection> 1`)
 //
@@ -108,11 +108,14 @@ static const char* algName(int a) {
 
 // distance bound used for "returned point is the unique minimiser within the convergence tolerance"
 // (per-algorithm meaning of the tolerance; constants measured on the clean tree, see notes/C39.md)
-static double nearBound(int alg, const Run& r) {
-    double graderr = 0;
-    if (r.numGrad) graderr = (r.method == 1 ? 1e-7 : 2e-5);
+static double nearBound(int alg, const Run& r, int n, double fret) {
+    // error of the numerical gradient (central differences are exact on quadratics up to rounding; forward
+    // differences carry the truncation term h*A_ii/2 with h ~ 1.4e-7 |x|)
+    double graderr = r.numGrad ? (r.method == 1 ? 1e-7 : 1e-4) * (1 + std::fabs(fret)) : 0;
     switch (alg) {
-        case LBFGS:         return 8 * (r.tol + graderr) ;          // ||g|| <= tol max(1,||x||), lambda_min >= 1, ||x|| <= 8
+        // simbody's own termination test in lbfgs.cpp: max_i |g_i| max(1,|x_i|) / max(0.1,|f|) <= tol, and lambda_min(A) >= 1
+        // => ||x - x*||_2 <= ||g||_2 <= sqrt(n) tol max(0.1,|f|)        (theorem lbfgs_stop_distance)
+        case LBFGS:         return std::sqrt((double)n) * (r.tol * std::max(0.1, std::fabs(fret)) * 1.001 + graderr);
         case LBFGSB:        return 50 * (r.tol + graderr) + 2e-3;     // pgtol or relative f reduction 1e7*eps
         case InteriorPoint: return 200 * (r.tol + r.ctol + graderr) + 1e-4;
         case CMAES:         return 50 * std::sqrt(r.tol);            // stopTolFun on function differences
@@ -120,13 +123,13 @@ static double nearBound(int alg, const Run& r) {
     return 1;
 }
 
-static void emitRecord(const Prob& P, const Run& R, int alg, int status, double fret, const std::vector<double>& xret) {
+static void emitRecord(const Prob& P, const Run& R, int alg, int status, double fret, const std::vector<double>& xret, double acc = SignificantReal) {
     int n = P.n, nc = P.nEq + P.nIneq;
     vh::Line in = vh::I("opt");
     long nEval = P.cnt[0] + P.cnt[1] + P.cnt[2] + P.cnt[3];
     in.i(R.req).i(alg).i(n).i(P.nEq).i(P.nIneq).i(P.hasLim).i(R.numGrad).i(R.numJac).i(R.method).i(P.ptype).i(status)
       .i(nEval).i(P.cnt[0]).i(P.cnt[1]).i(P.cnt[2]).i(P.cnt[3]).i((long)P.log.size()).i(P.haveStar).i(R.seed);
-    in.d(R.tol).d(R.ctol).d(P.cR);
+    in.d(R.tol).d(R.ctol).d(P.cR).d(acc);
     for (double v : P.L) in.d(v);
     for (double v : P.b) in.d(v);
     for (int i = 0; i < n; ++i) in.d(P.hasLim ? P.lo[i] : -INF);
@@ -153,7 +156,7 @@ static void predicates(const Prob& P, const Run& R, int alg, double fret, const 
     // (1) returned f is f at the returned x
     double frec = P.fAt(xret.data());
     double fscale = 1 + std::fabs(frec);
-    double ftol = (alg == InteriorPoint) ? 1e-9 : 0.0;   // IPOPT scales/unscales the objective internally
+    double ftol = (alg == InteriorPoint) ? 1e-6 : 0.0;   // IPOPT scales/unscales the objective internally
     vh::P("returned_f_is_f_at_x", key + ".ftruth", std::fabs(fret - frec) / fscale, ftol);
     // (2) descent methods never return a point worse than the start (LBFGSB starts from the projection of x0 onto the box)
     if (alg == LBFGS || alg == LBFGSB) {
@@ -164,16 +167,29 @@ static void predicates(const Prob& P, const Run& R, int alg, double fret, const 
     }
     // (3) limits honoured by every evaluation and by the result
     if (P.hasLim && (alg == LBFGSB || alg == InteriorPoint || alg == CMAES)) {
-        double worst = 0, worstRet = 0;
+        bool numdiff = alg != CMAES && (R.numGrad || (R.numJac && P.nEq + P.nIneq > 0));
+        bool startInside = true;
+        for (int i = 0; i < n; ++i) startInside = startInside && P.lo[i] <= R.x0[i] && R.x0[i] <= P.hi[i];
+        double worst = 0, worstRet = 0, worstBase = 0;
+        const double accFac = R.method == 1 ? std::cbrt(SignificantReal) : std::sqrt(SignificantReal);
         for (int i = 0; i < n; ++i) {
             double relax = (alg == InteriorPoint) ? 1.0000001e-8 : 0.0;     // IPOPT's documented bounds_relax_factor
             double rl = std::isinf(P.lo[i]) ? 0 : relax * std::max(1.0, std::fabs(P.lo[i]));
             double rh = std::isinf(P.hi[i]) ? 0 : relax * std::max(1.0, std::fabs(P.hi[i]));
+            double h = 1.001 * accFac * std::max(0.1, std::max(std::fabs(P.envLo[i]), std::fabs(P.envHi[i])));
             worst = std::max(worst, std::max((P.lo[i] - rl) - P.envLo[i], P.envHi[i] - (P.hi[i] + rh)));
+            worstBase = std::max(worstBase, std::max((P.lo[i] - rl - h) - P.envLo[i], P.envHi[i] - (P.hi[i] + rh + h)));
             worstRet = std::max(worstRet, std::max(P.lo[i] - xret[i], xret[i] - P.hi[i]));
-            if (std::isnan(P.envLo[i]) || std::isnan(xret[i])) worst = NAN;
+            if (std::isnan(P.envLo[i]) || std::isnan(xret[i])) worst = worstBase = NAN;
         }
-        vh::P("evaluations_within_limits", key + ".evalbox", worst, 0.0);
+        if (alg == InteriorPoint && !startInside) vh::D("InteriorPoint.infeasibleStart.evalbox.notclaimed");  // IPOPT evaluates the user's start point for its scaling
+        else if (!numdiff) vh::P("evaluations_within_limits", key + ".evalbox", worst, 0.0);
+        else {
+            // numerical derivatives: simbody's wrapper hands the Differentiator a base point inside the limits, but the
+            // difference stencil x_i +/- h_i is evaluated without regard to the limits
+            vh::P("evaluations_within_limits_numdiff_stencil", "opt.numdiff.stencil_outside_limits", worst, 0.0);
+            vh::P("base_points_within_limits", key + ".basebox", worstBase, 0.0);
+        }
         vh::P("result_within_limits", key + ".retbox", worstRet, 0.0);
     }
     // (4) interior point: constraints within the constraint tolerance
@@ -189,14 +205,14 @@ static void predicates(const Prob& P, const Run& R, int alg, double fret, const 
     // (5) strictly convex problems: the returned point is the (designed, KKT-certified) unique minimiser within tolerance
     if (P.haveStar) {
         double e2 = 0; for (int i = 0; i < n; ++i) e2 += (xret[i] - P.xstar[i]) * (xret[i] - P.xstar[i]);
-        vh::P("unique_minimiser_within_tol", key + ".nearopt", std::sqrt(e2), nearBound(alg, R));
+        vh::P("unique_minimiser_within_tol", key + ".nearopt", std::sqrt(e2), nearBound(alg, R, n, fret));
     }
 }
 
 static int runCase(Prob& P, const Run& R, const std::string& tag) {
     int n = P.n;
     int alg = -1, status = 0;
-    double fret = 0;
+    double fret = 0, acc = SignificantReal;
     std::vector<double> xret(n, 0.0);
     try {
         Optimizer opt(P, (OptimizerAlgorithm)R.req);
@@ -213,7 +229,9 @@ static int runCase(Prob& P, const Run& R, const std::string& tag) {
         } else {
             opt.setAdvancedIntOption("seed", R.seed);
             opt.setAdvancedRealOption("init_stepsize", 0.5);
+            opt.setAdvancedRealOption("maxTimeFractionForEigendecomposition", 1);   // documented requirement for reproducibility
         }
+        acc = opt.getEstimatedAccuracyOfObjective();
         Vector x(n); for (int i = 0; i < n; ++i) x[i] = R.x0[i];
         P.resetLog();
         try {
@@ -226,6 +244,7 @@ static int runCase(Prob& P, const Run& R, const std::string& tag) {
             Optimizer opt2(P, CMAES);
             opt2.setConvergenceTolerance(R.tol); opt2.setMaxIterations(3000); opt2.setDiagnosticsLevel(0);
             opt2.setAdvancedIntOption("seed", R.seed); opt2.setAdvancedRealOption("init_stepsize", 0.5);
+            opt2.setAdvancedRealOption("maxTimeFractionForEigendecomposition", 1);
             Vector y(n); for (int i = 0; i < n; ++i) y[i] = R.x0[i];
             double f2 = NAN; bool same = true;
             try { f2 = opt2.optimize(y); } catch (const std::exception&) { same = false; }
@@ -233,10 +252,10 @@ static int runCase(Prob& P, const Run& R, const std::string& tag) {
             for (int i = 0; i < n && same; ++i) same = std::memcmp(&y[i], &xret[i], 8) == 0;
             // restore the first run's log
             P.log = keepLog; P.cnt[0] = c0; for (int i = 0; i < n; ++i) { P.envLo[i] = std::min(eL[i], P.envLo[i]); P.envHi[i] = std::max(eH[i], P.envHi[i]); }
-            emitRecord(P, R, alg, status, fret, xret);
+            emitRecord(P, R, alg, status, fret, xret, acc);
             vh::P("cmaes_reproducible", tag + ".repro", same ? 0 : 1, 0);
         } else {
-            emitRecord(P, R, alg, status, fret, xret);
+            emitRecord(P, R, alg, status, fret, xret, acc);
         }
     } catch (const std::exception& e) {
         // construction failed (e.g. CMAES with n<2): nothing returned, nothing to check
@@ -350,7 +369,7 @@ static void replayOpt(std::istringstream& is) {
     Prob P; Run R;
     R.req = (int)iv[0]; int n = P.n = (int)iv[2]; P.nEq = (int)iv[3]; P.nIneq = (int)iv[4]; P.hasLim = iv[5] != 0;
     R.numGrad = (int)iv[6]; R.numJac = (int)iv[7]; R.method = (int)iv[8]; P.ptype = (int)iv[9]; P.haveStar = iv[17] != 0; R.seed = (int)iv[18];
-    R.tol = rd(); R.ctol = rd(); P.cR = rd();
+    R.tol = rd(); R.ctol = rd(); P.cR = rd(); (void)rd();
     int nc = P.nEq + P.nIneq;
     P.L.resize(n * n); for (auto& v : P.L) v = rd();
     P.b.resize(n); for (auto& v : P.b) v = rd();
@@ -435,6 +454,7 @@ int main(int argc, char** argv) {
             genQuad(g, P, n, box, 0, 0); R.req = CFSQP; genStart(g, P, R, true); tag = box ? "quadbox" : "quad";
         }
         if (P.n == 0) continue;
+        if (R.req == CMAES) R.numGrad = R.numJac = 0;
         if (R.numGrad) tag += R.method == 1 ? ".numC" : ".numF";
         runCase(P, R, tag);
     }
